@@ -298,7 +298,13 @@ pub fn gen(prop: &str, seed: u64) -> Plan {
         "C01" => gen_byz(seed, "C01"),
         "C02" => gen_byz(seed, "C02"),
         "C06" => gen_byz(seed, "C06"),
-        "C12" => gen_byz(seed, "C12"),
+        "C12" => {
+            if mix(&[seed, 0xc12f]) % 5 == 0 {
+                gen_c12_two_chains(seed)
+            } else {
+                gen_byz(seed, "C12")
+            }
+        }
         _ => gen_c03(seed),
     }
 }
@@ -384,6 +390,76 @@ fn gen_c05_reorg(seed: u64) -> Plan {
     }
     b.plan.flags = vec!["honest".into(), "expect_converge".into(), "main=1".into(), "fork".into()];
     finish(b, until, 400_000)
+}
+
+/// Honest peers on competing chains: a fork about last-n deep, one peer switches and proves the
+/// new chain, the new chain grows a little, and only then the other peers follow and announce a
+/// tip a few blocks above the header the client has proven for them (a small-gap request whose
+/// start is moved back into the remembered window, answered honestly) - so that the remembered
+/// window is assembled from what the peer proved on the *old* chain and what it proves now.
+fn gen_c12_two_chains(seed: u64) -> Plan {
+    let mut b = base("C12", mix(&[seed, 0x12c2]), 80, 3);
+    let last_n = pick(&mut b.rng, &[3u64, 5, 8, 10]);
+    b.plan.knobs.last_n = last_n;
+    b.plan.knobs.check_point_interval = 2000;
+    b.plan.initial_blocks = b.plan.initial_blocks.max(2 * last_n + 3);
+    if b.plan.peers.len() < 2 {
+        let extra = b.plan.peers[0].clone();
+        b.plan.peers.push(extra);
+    }
+    // the peers connect one after the other (each is proven before the next one announces), and
+    // a peer that was dropped comes back
+    for p in 0..b.plan.peers.len() {
+        let mut at = 500 + 9_000 * p as u64 + b.rng.range(0, 2_000);
+        add(&mut b.plan, at, Action::Connect { peer: p });
+        while at < 400_000 {
+            at += b.rng.range(25_000, 70_000);
+            add(&mut b.plan, at, Action::Connect { peer: p });
+        }
+    }
+    let mut t = b.rng.range(40_000, 70_000);
+    // (a peer whose last state does not change for a minute is dropped: the chain keeps growing)
+    let mut tg = b.rng.range(12_000, 25_000);
+    while tg + 5_000 < t {
+        add(&mut b.plan, tg, Action::Mine { branch: 0, n: 1 });
+        tg += b.rng.range(15_000, 30_000);
+    }
+    let mut branch = 0usize;
+    let rounds = b.rng.range(1, 3);
+    let mut until = t;
+    for _ in 0..rounds {
+        // (deeper than last-n is the documented long-fork abort)
+        let back = pick(&mut b.rng, &[last_n.saturating_sub(2).max(1), last_n - 1, last_n - 1, last_n]);
+        let n = back + b.rng.range(1, 2);
+        // (the peers that stay on the old chain for a while must not be dropped for a last state
+        // that does not change: a last block there right before the fork, and they follow within
+        // half a minute)
+        add(&mut b.plan, t.saturating_sub(3_000), Action::Mine { branch, n: 1 });
+        add(&mut b.plan, t, Action::Fork { src: branch, back, n });
+        branch += 1;
+        let first = b.rng.usize_below(b.plan.peers.len());
+        add(&mut b.plan, t + b.rng.range(100, 2_000), Action::SwitchBranch { peer: first, branch });
+        // the first peer is proven on the new chain; the chain grows; the others follow
+        let mut tm = t + b.rng.range(10_000, 16_000);
+        for _ in 0..b.rng.range(1, 3) {
+            add(&mut b.plan, tm, Action::Mine { branch, n: 1 });
+            tm += b.rng.range(2_000, 5_000);
+        }
+        for p in 0..b.plan.peers.len() {
+            if p != first {
+                add(&mut b.plan, tm + b.rng.range(100, 6_000), Action::SwitchBranch { peer: p, branch });
+            }
+        }
+        tm += 20_000;
+        for _ in 0..b.rng.range(1, 4) {
+            add(&mut b.plan, tm, Action::Mine { branch, n: 1 });
+            tm += b.rng.range(8_000, 25_000);
+        }
+        t = tm + b.rng.range(5_000, 15_000);
+        until = t;
+    }
+    b.plan.flags = vec!["honest".into(), format!("main={}", branch), "fork".into()];
+    finish(b, until, 300_000)
 }
 
 fn gen_c05(seed: u64) -> Plan {
